@@ -61,7 +61,8 @@ CONSTANTS SphB,        \* integer vectors (-SphB..SphB)^3 \ {0} for the spherica
           PythB,       \* search cube for primitive Pythagorean quadruples (Lambert)
           DiskN,       \* disk grid (i/DiskN, j/DiskN) for the lifting
           PoleRots,    \* rotation set for poles
-          GridSteps, DataN, DataClasses, Weights   \* density scenario space
+          GridSteps, DataN, DataClasses, Weights,  \* density scenario space
+          BigDataN     \* large data sets on the default grid (101 steps): thousands of data, as a whole texture gives
 
 VARIABLE case
 
@@ -257,7 +258,7 @@ DensityScenarioLemma ==
     /\ case.kernel \in KambKernels =>
          LET r == KambRadius(case.n, case.axial) IN
            /\ QLt(r, QOne)
-           /\ (case.cap = "pos") <=> QLt(QZ, QMul(Q(case.n), QMul(r, QSub(QOne, r))))   \* Kamb unit > 0
+           /\ (case.cap = "pos") <=> QLt(QZ, QMul(r, QSub(QOne, r)))   \* Kamb unit n r (1 - r) > 0  (n >= 1: sign of r (1 - r))
            /\ case.axial => case.cap = "pos"
 
 \* ------------------------------------------------------------------ generator
@@ -272,6 +273,9 @@ GenInit ==
   \/ case \in {LiftCase(p, s) : p \in DiskPts, s \in {-1, 1}}
   \/ case \in {DensCase(k, ax, g, dc, n, w) : k \in Kernels, ax \in BOOLEAN, g \in GridSteps,
                                              dc \in DataClasses, n \in DataN, w \in Weights}
+  \* whole textures: thousands of data on the default grid (every kernel, axial or not; an estimate assembled from
+  \* partial sums over blocks of data must not depend on where the blocks fall)
+  \/ case \in {DensCase(k, ax, 101, dc, n, QOne) : k \in Kernels, ax \in BOOLEAN, dc \in {"girdle", "cluster"}, n \in BigDataN}
 GenNext == UNCHANGED case
 Emit == PrintT(<<"CASE", ToJson(case)>>)
 \* rotation sets for the cfg files
